@@ -142,7 +142,21 @@ def pump_inputs(rng, thorough):
     return out
 
 
-EXPR_ALPHABET = ['1', 'x', '+', '*', '^', 'and', 'not', '-', '(', ')', '==', '%']
+EXPR_ALPHABET = ['1', 'x', '+', '*', '^', 'and', 'not', '-', '(', ')', '==', '%', '")"', '"("']
+
+
+def parens_unbalanced(text):
+    """the documented rule, independent of the compiler: outside string literals and comments, the
+    round, curly and square brackets of a text must pair up"""
+    bare = re.sub(r'"[^"\n]*"', ' ', re.sub(r'#[^\n]*', ' ', text))
+    stack = []
+    for ch in bare:
+        if ch in '({[':
+            stack.append(ch)
+        elif ch in ')}]':
+            if not stack or stack.pop() != {')': '(', '}': '{', ']': '['}[ch]:
+                return True
+    return bool(stack)
 
 
 def expr_inputs(rng, thorough):
@@ -215,6 +229,9 @@ def run_pumps(chk, texts, stats):
                 elif o == 'reject' and res['program_left']:
                     chk.violation('rejected-text-leaves-a-program', 'program left after rejection',
                                   {'text': text[:300], 'length': len(text)})
+                elif o == 'accept' and len(text) < 400 and parens_unbalanced(text):
+                    chk.violation('documented-rule-not-enforced:unbalanced',
+                                  'a text whose brackets do not pair up is accepted', {'text': text[:300]})
                 else:
                     chk.nontrivial_case(('p', text))
             else:
